@@ -89,7 +89,7 @@ MZero == [cfg |-> [reliable |-> FALSE], pend |-> {}, seen |-> {}, tx |-> <<>>,
           lastReq |-> -1,
           stale |-> 0, reported |-> {},
           lt |-> [state |-> "First", params |-> FALSE, realm |-> "", nonce |-> "",
-                  algsPresent |-> FALSE, algs |-> <<>>, pa |-> FALSE, ua |-> FALSE]]
+                  algsPresent |-> FALSE, algs |-> <<>>, algsP |-> <<>>, pa |-> FALSE, ua |-> FALSE]]
 
 MInit(o) == [MZero EXCEPT !.cfg = o.cfg, !.prev = o.snap,
                           !.alg = IF o.cfg.mech = "st" THEN o.cfg.preset ELSE "none",
@@ -208,7 +208,8 @@ LtAfter(m, o) ==
     ELSE LET d == o.arg.d IN
          IF HasRetry(o) /\ d.lt.code = 401
          THEN [state |-> "RetryUnauth", params |-> TRUE, realm |-> d.lt.realm, nonce |-> d.lt.nonce,
-               algsPresent |-> d.lt.algs_present, algs |-> d.lt.algs, pa |-> d.lt.pa, ua |-> d.lt.ua]
+               algsPresent |-> d.lt.algs_present, algs |-> d.lt.algs, algsP |-> d.lt.algs_p,
+               pa |-> d.lt.pa, ua |-> d.lt.ua]
          ELSE IF HasRetry(o) /\ d.lt.code = 438
          THEN [m.lt EXCEPT !.state = "RetryStale", !.nonce = d.lt.nonce]
          ELSE IF HasRecvd(o) /\ IsResponse(d) /\ m.lt.params
@@ -259,6 +260,10 @@ LtRequestFaults(lt, q) ==
             \cup (IF lt.algsPresent
                   THEN IF noAlgs /\ lt.state = "RetryStale" THEN {"K2:password-algorithms-omitted-after-438"}
                        ELSE IF q.lt.algs_present /\ q.lt.algs = lt.algs /\ q.lt.alg \in LtChoices(lt)
+                               \* the entries are echoed with their parameters (algs_p / alg_p: a number
+                               \* standing for the parameter bytes, 0 = none), the chosen one included
+                               /\ q.lt.algs_p = lt.algsP
+                               /\ \E i \in DOMAIN lt.algs : lt.algs[i] = q.lt.alg /\ lt.algsP[i] = q.lt.alg_p
                        THEN {} ELSE {"password-algorithms"}
                   ELSE IF noAlgs THEN {} ELSE {"password-algorithms-unexpected"})
             \cup (IF ~hasInt
@@ -307,6 +312,15 @@ WhyC08(m, o) ==
                                        /\ (d.lt.code = 401 => d.lt.realm_present)
                                        /\ (d.lt.code = 438 => m.lt.params))
                    THEN {"retry-without-challenge"} ELSE {})
+             \* a 401 / 438 that carries integrity is followed only if the attribute of the kind in force
+             \* verifies (for a 401: the kind, realm and algorithm the 401 itself announces)
+             \cup (IF HasRetry(o) /\ (d.mi # "absent" \/ d.sha # "absent")
+                      /\ ~(IF d.lt.code = 401
+                           THEN \E a \in (IF d.lt.algs_present THEN Range(d.lt.algs) \cap Supported ELSE {1}) :
+                                  VerifiesUnder(IF d.lt.algs_present THEN d.lt.sha_keys ELSE d.lt.mi_keys,
+                                                d.lt.realm, a)
+                           ELSE authentic)
+                   THEN {"retry-on-unauthenticated-challenge"} ELSE {})
      ELSE {})
     \cup UNION {LtRequestFaults(m.lt, o.ev[i].d) : i \in {j \in DOMAIN o.ev : o.ev[j].k = "out" /\ o.op = "send"}}
     \cup (IF \E i \in DOMAIN o.ev : o.ev[i].k = "out" /\ o.ev[i].d.leak THEN {"password-on-the-wire"} ELSE {})
